@@ -376,6 +376,14 @@ fn page_ops(mut p: Page<'static>, ops: &[&str]) -> String {
                 }
             },
             ["b"] => out.push(to_hex(p.as_bytes())),
+            // `Display for Page`: the printed picture, with blanks and newlines made visible
+            ["d"] => match guarded(|| format!("{}", p)) {
+                Some(s) => out.push(s.replace(' ', ".").replace('\n', "/")),
+                None => {
+                    out.push("PANIC".into());
+                    return out.join(" ");
+                }
+            },
             _ => return "bad-op".into(),
         }
     }
